@@ -69,6 +69,10 @@ def run(ctx):
             n, sk = race_events(o, ot)
             ctx.extra["race_reports"] = ctx.extra.get("race_reports", 0) + n
         ctx.validate("OwnershipTrace", ot, keyfn, describe=describe, timeout=3000, require_events=100 if mode not in ("fault", "life") else 1)
+    # the one-at-a-time transport stepped through behaviours of ReuseStep: a query written from a released buffer
+    # (the caller left before the exchange goroutine wrote) is seen by the scripted connection as poison
+    import xportfam
+    xportfam.reuse_replay(ctx, vf.build_driver("xportdrv"), "C20")
     if race:
         # the QUIC transport under the race detector: its scenario run and the gate-scheduled replay of
         # QuicXport's state graph (every interleaving of the model, stepped through the real code)
